@@ -115,6 +115,30 @@ def stop_instants(rng: random.Random, base_trace: List[Dict[str, Any]], full: bo
     return sorted(rng.sample(cand, 12))
 
 
+def fidelity_spec(rng: random.Random) -> Dict[str, Any]:
+    n = rng.randint(2, 5)
+    msgs = []
+    t = 0.0
+    for i in range(n):
+        t += rng.choice([0.07, 0.11, 0.17])
+        msgs.append({"at": round(t, 3), "task": "t_async", "ackable": rng.random() < 0.5,
+                     "beh": {"dur": [rng.choice([0.05, 0.13, 0.23, 0.37])], "out": rng.choice(["ok", "raise:ValueError", "noresult"])}})
+    return {"cfg": {"A": rng.choice([1, 2, None]), "P": rng.choice([0, 1])}, "msgs": msgs,
+            "stop_at": round(t + 0.5, 3), "horizon": 5.0}
+
+
+def tie_free(trace: List[Dict[str, Any]], gap: float) -> bool:
+    """All distinct event instants at least `gap` apart, and events sharing an instant belong to one
+    delivery (a causal chain) - otherwise real time may legitimately order them differently."""
+    by_t: Dict[float, set] = {}
+    for e in trace:
+        by_t.setdefault(round(e["t"], 6), set()).add(e["m"])
+    ts = sorted(by_t)
+    if any(b - a < gap for a, b in zip(ts, ts[1:])):
+        return False
+    return all(len({m for m in ms if m is not None}) <= 1 for ms in by_t.values())
+
+
 class WorkerCheck(Check):
     """Common: one case = one spec (or a sweep of derived specs)."""
 
@@ -219,6 +243,37 @@ class C01(WorkerCheck):
 
     def judge(self, rr: RunResult, spec: Dict[str, Any], cr: CaseResult) -> None:
         cr.violations += O.oracle_c01(rr, spec)
+
+    def shard_epilogue(self, tier: str, shard: int, rng: random.Random) -> Dict[str, int]:
+        """Fidelity cross-check of the virtual-time loop (thorough tier, two shards): short tie-free
+        scenarios run on the virtual loop and on the stock asyncio loop in real time must produce the
+        same order of (event kind, delivery).  Real time on a loaded machine is noisy, so the result
+        is evidence, and only a systematic disagreement makes the run INCONCLUSIVE (post_merge)."""
+        if tier != "thorough" or shard > 1:
+            return {}
+        out = {"loop_fidelity_compared": 0, "loop_fidelity_equal": 0}
+        tries = 0
+        while out["loop_fidelity_compared"] < 8 and tries < 200:
+            tries += 1
+            spec = fidelity_spec(rng)
+            v = run_worker(spec)
+            if v.outcome != "returned" or not tie_free(v.trace, 0.04):
+                continue
+            r = run_worker(spec, real=True)
+            out["loop_fidelity_compared"] += 1
+            if O.signature(r.trace) == O.signature(v.trace):
+                out["loop_fidelity_equal"] += 1
+            else:
+                r2 = run_worker(spec, real=True)  # one retry against real-time noise
+                if O.signature(r2.trace) == O.signature(v.trace):
+                    out["loop_fidelity_equal"] += 1
+        return out
+
+    def post_merge(self, merged: Dict[str, Any]) -> None:
+        c = merged["counters"]
+        if c.get("loop_fidelity_compared", 0) >= 6 and c.get("loop_fidelity_equal", 0) == 0:
+            merged["errors"].append({"spec": "loop-fidelity", "error": "virtual-time loop and stock asyncio loop disagree on every "
+                                     "compared scenario: harness fidelity in doubt"})
 
     def nontrivial(self, rr: RunResult, spec: Dict[str, Any]) -> bool:
         ny = sum(1 for e in rr.trace if e["k"] == "yield")
